@@ -14,13 +14,13 @@ import (
 )
 
 func init() {
-	register(&Prop{ID: "C27", Module: "V.C27.Check", Gen: c27Gen, Quick: 4000, Thorough: 60000, Shard: 250})
+	register(&Prop{ID: "C27", Module: "V.C27.Check", Gen: c27Gen, Quick: 4000, Thorough: 60000, Shard: 290})
 }
 
 // c27F prints a finite float64 as the Coq pair (mantissa, exponent)%Z with value mantissa * 2^exponent.
 func c27F(f float64) string {
 	if f == 0 {
-		return "(0%Z, 0%Z)"
+		return "0 0"
 	}
 	fr, ex := math.Frexp(f)
 	m := int64(fr * (1 << 53))
@@ -29,7 +29,7 @@ func c27F(f float64) string {
 		m /= 2
 		e++
 	}
-	return "(" + coqZ(m) + ", " + coqZ(int64(e)) + ")"
+	return c27Z(m) + " " + c27Z(int64(e))
 }
 
 // JSON cannot carry NaN/Inf
@@ -39,6 +39,16 @@ func c27J(f float64) any {
 	}
 	return f
 }
+
+// constructor arguments of type Z are parsed in Z scope: no %Z needed
+func c27Z(n int64) string {
+	if n < 0 {
+		return fmt.Sprintf("(%d)", n)
+	}
+	return fmt.Sprintf("%d", n)
+}
+
+const c27Dummy = "Trace true 0 0 0 0 0 0 0 0 0 0 0 0 0 0 0 0 true"
 
 func c27Finite(xs ...float64) bool {
 	for _, x := range xs {
@@ -56,7 +66,7 @@ var c27Types = []string{
 	shape.CLOUD_TYPE, shape.TABLE_TYPE, shape.CLASS_TYPE, shape.TEXT_TYPE, shape.CODE_TYPE, shape.IMAGE_TYPE, "",
 }
 
-// Coq constructor of the model's `shape` for a lib/shape type ("" = not modelled: oval, circle)
+// Coq constructor of the model's `shape` for a lib/shape type ("" = not modelled: oval)
 func c27Model(t string) string {
 	switch t {
 	case shape.SQUARE_TYPE, shape.TABLE_TYPE, shape.CLASS_TYPE, shape.TEXT_TYPE, shape.CODE_TYPE, shape.IMAGE_TYPE, "":
@@ -91,6 +101,8 @@ func c27Model(t string) string {
 		return "Hexagon"
 	case shape.CLOUD_TYPE:
 		return "Cloud"
+	case shape.CIRCLE_TYPE:
+		return "Circle"
 	}
 	return ""
 }
@@ -110,24 +122,64 @@ func c27CloudBranch(w, h float64) int {
 	return 2
 }
 
+// predicted (formula-level, float64) inner size of the fitted c4-person / cloud for content (w,h):
+// a replica of the rational model in Model.v, a function of the INPUT only.
+func c27C4Inner(w, h, px, py float64) (iw, ih float64) {
+	cw, ch := w+px, h+py
+	tw := cw / 0.9
+	th := math.Max(ch+tw*0.22*1.8+tw*0.06, tw*0.95)
+	if tw > 1.5*th {
+		th = math.Round(tw / 1.5)
+	} else if th > 1.5*tw {
+		tw = math.Round(th / 1.5)
+	}
+	W, H := math.Ceil(tw), math.Ceil(th)
+	return 0.9 * W, 0.94*H - 0.396*W
+}
+
+func c27CloudInner(w, h, px, py float64) (iw, ih float64) {
+	fw := [3]float64{0.819, 0.549, 0.663}
+	fh := [3]float64{0.548, 0.820, 0.663}
+	kf, ki := c27CloudBranch(w+px, h+py), c27CloudBranch(w, h)
+	return math.Ceil((w+px)/fw[kf]) * fw[ki], math.Ceil((h+py)/fh[kf]) * fh[ki]
+}
+
+// Signatures = negation of `guard` (where the theorem does not apply) intersected with the region in
+// which the formulas predict that the CONTENT itself no longer fits (1px margin for rounding).
 func c27KF(t string, w, h, px, py float64) []string {
 	cw, ch := w+px, h+py
 	switch t {
 	case shape.PERSON_TYPE:
+		// LimitAR's math.Round can take back up to half a pixel; visible only when padding < 0.5
 		tw := cw * 683 / 279
-		if tw > 1.5*ch || ch > 1.5*tw {
+		if (tw > 1.5*ch && py < 0.5) || (ch > 1.5*tw && px < 0.5) {
 			return []string{"C27-person-limitar-round"}
 		}
 	case shape.C4_PERSON_TYPE:
 		if 0.06*ch+0.396 > 0.03264*(cw/0.9) {
-			return []string{"C27-c4person-inner-height"}
+			if iw, ih := c27C4Inner(w, h, px, py); iw < w+1 || ih < h+1 {
+				return []string{"C27-c4person-inner-height"}
+			}
 		}
 	case shape.CLOUD_TYPE:
 		if c27CloudBranch(w, h) != c27CloudBranch(cw, ch) {
-			return []string{"C27-cloud-aspect-branch"}
+			if iw, ih := c27CloudInner(w, h, px, py); iw < w+1 || ih < h+1 {
+				return []string{"C27-cloud-aspect-branch"}
+			}
 		}
-	case shape.OVAL_TYPE, shape.CIRCLE_TYPE:
+	case shape.CIRCLE_TYPE:
+		// math.Ceil on the inner top-left takes back up to 2px of the inner width/height
 		if px < 2 || py < 2 {
+			return []string{"C27-ellipse-ceil-small-padding"}
+		}
+	case shape.OVAL_TYPE:
+		// same, and the oval only adds the projection padding*cos / padding*sin of the content angle
+		d := math.Hypot(w, h)
+		c, sn := 1., 0.
+		if d > 0 {
+			c, sn = w/d, h/d
+		}
+		if px*c*(1-1e-5) < 2+1e-5*w+1e-3 || py*sn*(1-1e-5) < 2+1e-5*h+1e-3 {
 			return []string{"C27-ellipse-ceil-small-padding"}
 		}
 	}
@@ -141,7 +193,7 @@ func c27Fit(t string, w, h, px, py float64, class string) (cs Case) {
 	defer func() {
 		if e := recover(); e != nil {
 			cs.ImplFail = []string{fmt.Sprintf("panic: %v", e)}
-			cs.Coq = "Trace true (0%Z,0%Z) (0%Z,0%Z) (0%Z,0%Z) (0%Z,0%Z) (0%Z,0%Z) (0%Z,0%Z) (0%Z,0%Z) (0%Z,0%Z) true"
+			cs.Coq = c27Dummy
 		}
 	}()
 	// exactly what d2graph.SizeToContent does: the shape used for fitting has the content as its box
@@ -159,7 +211,26 @@ func c27Fit(t string, w, h, px, py float64, class string) (cs Case) {
 	cs.Impl = map[string]any{"W": c27J(W), "H": c27J(H), "inner": []any{c27J(ib.TopLeft.X), c27J(ib.TopLeft.Y), c27J(ib.Width), c27J(ib.Height)}}
 	if !c27Finite(W, H, ib.TopLeft.X, ib.TopLeft.Y, ib.Width, ib.Height) {
 		cs.ImplFail = []string{"non-finite result"}
-		cs.Coq = "Trace true (0%Z,0%Z) (0%Z,0%Z) (0%Z,0%Z) (0%Z,0%Z) (0%Z,0%Z) (0%Z,0%Z) (0%Z,0%Z) (0%Z,0%Z) true"
+		cs.Coq = c27Dummy
+		return cs
+	}
+	if t == shape.OVAL_TYPE {
+		// the oval's four trigonometric oracle values, recomputed with the expressions of shape_oval.go
+		theta := float64(float32(math.Atan2(h, w)))
+		c, sn := math.Cos(theta), math.Sin(theta)
+		rx, ry := W/2, H/2
+		th2 := float64(float32(math.Atan2(ry, rx)))
+		sin2, cos2 := math.Sin(th2), math.Cos(th2)
+		r := rx * ry / math.Sqrt(math.Pow(rx*sin2, 2)+math.Pow(ry*cos2, 2))
+		cr, sr := cos2*(r-0./2), sin2*(r-0./2)
+		if !c27Finite(c, sn, cr, sr) {
+			cs.ImplFail = []string{"non-finite oracle value"}
+			cs.Coq = c27Dummy
+			return cs
+		}
+		cs.Coq = fmt.Sprintf("FitOval %s %s %s %s %s %s %s %s %s %s %s %s %s %s", c27F(c), c27F(sn), c27F(cr), c27F(sr),
+			c27F(w), c27F(h), c27F(px), c27F(py), c27F(W), c27F(H),
+			c27F(ib.TopLeft.X), c27F(ib.TopLeft.Y), c27F(ib.Width), c27F(ib.Height))
 		return cs
 	}
 	m := c27Model(t)
